@@ -117,9 +117,21 @@ def run(a):
                 verdict = 'CAUGHT' if rc == 1 else ('missed' if rc == 0 else 'harness-error')
                 meta['checks'][p] = {'verdict': verdict, 'seconds': round(time.time() - t0, 1), 'budget': a.budget,
                                      'first': lines[1][:300] if len(lines) > 1 else ''}
+                if verdict == 'CAUGHT' and lines and 'replay=' in lines[0]:
+                    meta['checks'][p]['replay'] = lines[0].split('replay=')[1].strip()
                 print('%-28s %s %-8s %5.1fs %s' % (i, p, verdict, time.time() - t0, (lines[1][9:170] if len(lines) > 1 else out[-200:] if rc not in (0, 1) else '')))
         finally:
             sh('git -C /repo checkout -- .')
+        # cross-check: what caught the change must not fire on the unchanged tree (else it is a false alarm of
+        # the machinery, not a detection)
+        for p in props:
+            c = meta['checks'].get(p) or {}
+            if c.get('verdict') == 'CAUGHT' and c.get('replay'):
+                rc, out = sh('timeout 300 %s check.py --replay %s --quiet' % (PY, c['replay']), cwd=HERE)
+                c['replay_on_unchanged_tree'] = 'NOT-REPRODUCED' if (rc == 0 and 'NOT-REPRODUCED' in out) else 'REPRODUCED (false alarm!)' if 'REPRODUCED' in out else 'error rc=%s' % rc
+                if c['replay_on_unchanged_tree'] != 'NOT-REPRODUCED':
+                    print('   !!', i, p, c['replay_on_unchanged_tree'], out[-300:])
+                c.pop('replay')
         json.dump(meta, open(mp, 'w'), indent=1)
     return 0
 
